@@ -140,7 +140,9 @@ def dfxp_region_attrs(doc):
     return None
 
 
-def eval_dfxp(spec, video, fit, level):
+def eval_dfxp(spec, video, fit, level, prior=None):
+    """prior: a video size for which the very same caption set object was written before (by another DFXPWriter); what
+    is written now must not depend on that"""
     from pycaption import DFXPWriter
     from pycaption.exceptions import RelativizationError
 
@@ -151,6 +153,11 @@ def eval_dfxp(spec, video, fit, level):
     klass = "+".join(sorted({spec[a][1] for a in AXES if spec[a][1] != "%"})) or "percent"
     try:
         src = mk_set_from_doc(spec) if level == "document" else mk_set(mk_layout(spec), level)
+        if prior:
+            try:
+                DFXPWriter(relativize=True, video_width=prior[0], video_height=prior[1]).write(src)
+            except Exception:  # noqa
+                pass
         doc = shared.obj(DFXPWriter, relativize=True, video_width=vw, video_height=vh, fit_to_screen=fit).write(src)
     except RelativizationError:
         if not want_err:
@@ -447,6 +454,12 @@ def run_shard(d):
                                 acc.case(("dfxp", a, si, unit, val, video, fit, level), True, out, {"writer": "DFXPWriter", "axis": a, "value": val + unit, "both_axes": bool(si), "video": video, "fit_to_screen": fit, "level": level})
                                 for sig, det in v:
                                     acc.violation(sig, {"k": "dfxp", "spec": spec, "video": video, "fit": fit, "level": level}, det)
+                                if val in ("7", "33.333") and not fit and video in (VIDEO[0], (None, None)):
+                                    prior = (1280, 720)
+                                    v, out = eval_dfxp(spec, video, fit, level, prior)
+                                    acc.case(("dfxp-second-use", a, si, unit, val, video, level), True, out, {"writer": "DFXPWriter", "axis": a, "value": val + unit, "video": video, "level": level, "same_set_written_before_for_video": prior})
+                                    for sig, det in v:
+                                        acc.violation(sig + "/set-written-before-for-another-video-size", {"k": "dfxp", "spec": spec, "video": video, "fit": fit, "level": level, "prior": prior}, det)
     elif k == "dfxp2":
         n = 0
         for a, b in itertools.combinations(AXES, 2):
@@ -545,7 +558,10 @@ def replay(case):
         spec = {a: tuple(x) for a, x in case["spec"].items()}
         video = tuple(case["video"])
         if k == "dfxp":
-            v, _ = eval_dfxp(spec, video, case["fit"], case["level"])
+            prior = tuple(case["prior"]) if case.get("prior") else None
+            v, _ = eval_dfxp(spec, video, case["fit"], case["level"], prior)
+            if prior:
+                v = [(s_ + "/set-written-before-for-another-video-size", d_) for s_, d_ in v]
         elif k == "sami":
             v, _ = eval_sami(spec, video)
         else:
